@@ -1,7 +1,8 @@
 (* The operation language of the correspondence check: one constructor per public
    operation of dimarray that the model covers, and its dispatch onto the model. *)
 From DA Require Import Prelude NDArray Array.
-From DA.Model Require Import Value Reshape.
+From DA Require Import PyRT.
+From DA.Model Require Import Value Reshape Indexing.
 Open Scope string_scope.
 Open Scope nat_scope.
 
@@ -14,6 +15,8 @@ Inductive op :=
 | OSqueeze (r : option axref)
 | OBroadcast (axs : list axis)
 | OBroadcastTo (i : nat)            (* a.broadcast(other array = input i) *)
+| OGet (f : form) (tol : tolv) (keepdims : bool)
+| OPut (f : form) (tol : tolv) (r : rhs) (cast : bool)
 .
 
 Definition dflt_arr : darr := Arr [] [] KF [CNaN] [].
@@ -31,6 +34,8 @@ Definition apply_op (ins : list darr) (o : op) (a : darr) : res value :=
   | OSqueeze r => arr1 (squeeze r) a
   | OBroadcast axs => arr1 (broadcast axs) a
   | OBroadcastTo i => arr1 (broadcast (axes (nth i ins dflt_arr))) a
+  | OGet f tol kd => getitem f tol kd a
+  | OPut f tol r c => arr1 (setitem f tol r c) a
   end.
 
 (* a program: ops applied in sequence to input 0; every intermediate result must be an array *)
